@@ -131,7 +131,7 @@ func countBatches(parts [][]Run) int {
 	return n
 }
 
-var interestingCounts = []int{0, 1, 2, 3, 4, 5, 7, 8, 9, 15, 16, 17, 31, 32, 33, 63, 64, 65, 127, 128, 129, 131, 132, 133, 255, 256, 257, 263, 264, 265, 383, 384, 385, 511, 512, 513, 527, 528, 529, 767, 768, 769, 1023, 1024, 1025}
+var interestingCounts = []int{0, 1, 2, 3, 4, 5, 7, 8, 9, 15, 16, 17, 31, 32, 33, 63, 64, 65, 80, 81, 82, 163, 164, 245, 246, 127, 128, 129, 131, 132, 133, 255, 256, 257, 263, 264, 265, 383, 384, 385, 511, 512, 513, 527, 528, 529, 767, 768, 769, 1023, 1024, 1025}
 
 func genCount(r *simcore.RNG, tier string) int {
 	switch r.Intn(10) {
